@@ -453,6 +453,16 @@ class Interp(ExprMixin):
             if st.orelse:
                 self.exec_block(st.orelse)
             return None
+        rv_ = self._reversed_slice_as_range(it)
+        if rv_ is not None:
+            # for v in X[a::-1]: the index loop `for i in range(a, -1, -1): v = X[i]` - one spelling for walking a sequence backwards
+            rng_, base_ = rv_
+            loop = self.new_loop("for", rng_, st)
+            self._run_loop(st, loop, rng_, None, pre_bind=lambda: self.assign(target, ("idx", base_, ("elem", loop)), st),
+                           extra_assigned=[n_.id for n_ in ast.walk(target) if isinstance(n_, ast.Name)])
+            if st.orelse:
+                self.exec_block(st.orelse)
+            return None
         z = self.zip_as_range(self.ref_term(it) if not isinstance(it, tuple) else it)
         if z is not None:
             it = z[0]
@@ -672,6 +682,28 @@ class Interp(ExprMixin):
                     continue
                 init = heap_before.get(k, UNBOUND)
                 self.heap[k] = ("loopout", k[1], loop, self.to_term(init), self.to_term(v))
+
+    def _reversed_slice_as_range(self, it):
+        """X[a:b:-1] (a, b integer constants or absent) as (range(a', b', -1), X): a' = a (len + a when negative, len - 1 when
+        absent), b' = b (len + b when negative, -1 when absent)"""
+        t = it if isinstance(it, tuple) else None
+        if t is None or len(t) != 3 or t[0] != "idx" or not (isinstance(t[2], tuple) and t[2] and t[2][0] == "slice"):
+            return None
+        lo, hi, st_ = t[2][1], t[2][2], t[2][3]
+        if st_ != K(-1) or not isinstance(t[1], tuple) or t[1][0] in ("call", "mcall"):
+            return None
+        n = ("call", "len", (t[1],), ())
+
+        def pos(v, default):
+            if v == NONE:
+                return default
+            if is_const(v) and isinstance(v[1], int):
+                return v if v[1] >= 0 else app("-", n, K(-v[1]))
+            return None
+        a, b = pos(lo, app("-", n, K(1))), pos(hi, K(-1))
+        if a is None or b is None:
+            return None
+        return ("range", a, b, K(-1)), t[1]
 
     def zip_as_range(self, it):
         """zip(X, X[1:]) / zip(A, B[k:]) / zip(X[:-1], X[1:]): the position-wise pairs (A[i + ka], B[i + kb]) for i in
@@ -1022,6 +1054,13 @@ class Interp(ExprMixin):
                     return K({"int": int, "float": float, "str": str, "bool": bool, "abs": abs}[b](targs[0][1]))
                 except Exception:
                     pass
+            if b == "map" and len(args) == 2 and not tkw and self._known_items(args[1]) is not None \
+                    and all(not lp_ and not gd_ for _v, lp_, gd_ in self._known_items(args[1])):
+                # map(f, (a, b, ...)) over items written in the source: [f(a), f(b), ...] (called left to right)
+                out = PyList(base_loops=self.loops, base_guards=self.eff_guards())
+                for val, _lp, _gd in self._known_items(args[1]):
+                    out.items.append(Item(self.call(args[0], [val], [], node)))
+                return out
             if b in ("any", "all") and len(targs) == 1 and not tkw and targs[0][0] in ("list", "tuple") \
                     and all(not (isinstance(i, tuple) and i and i[0] == "each") for i in targs[0][1]):
                 # over items known from the source: the conjunction / disjunction of their truth values
